@@ -108,12 +108,14 @@ def build_lib(kind):
     with Lock('lib-' + kind):
         if os.path.exists(stamp):
             return d
-        # keep the cache small: drop other trees of this kind
+        # keep the cache small: keep the two most recently used other trees of this kind (a concurrent check may be
+        # running on one of them), drop older ones
         base = os.path.join(WORK, 'lib')
         if os.path.isdir(base):
-            for e in os.listdir(base):
-                if e.endswith('-' + kind) and e != tree + '-' + kind:
-                    shutil.rmtree(os.path.join(base, e), ignore_errors=True)
+            others = [os.path.join(base, e) for e in os.listdir(base) if e.endswith('-' + kind) and e != tree + '-' + kind]
+            others.sort(key=lambda d: os.path.getmtime(d), reverse=True)
+            for d_old in others[2:]:
+                shutil.rmtree(d_old, ignore_errors=True)
         shutil.rmtree(d, ignore_errors=True)
         os.makedirs(d)
         args, _ = LIB_KINDS[kind]
